@@ -175,6 +175,23 @@ impl AutosarModel {
         }
         .wrap();
 
+        // check for overlapping paths before merging anything, so that a rejected file does not modify the model
+        {
+            let data = self.0.read();
+            for (key, value) in &parser.identifiables {
+                if let Some(existing_element) = data.identifiables.get(key).and_then(WeakElement::upgrade) {
+                    if let Some(new_element) = value.upgrade() {
+                        if existing_element.element_name() != new_element.element_name() {
+                            return Err(AutosarDataError::OverlappingDataError {
+                                filename,
+                                path: key.clone(),
+                            });
+                        }
+                    }
+                }
+            }
+        }
+
         if self.0.read().files.is_empty() {
             root_element.set_parent(ElementOrModel::Model(self.downgrade()));
             root_element.0.write().file_membership.insert(arxml_file.downgrade());
